@@ -13,6 +13,7 @@ package c20
 import (
 	"bytes"
 	"fmt"
+	"regexp"
 	"runtime"
 	"strings"
 	"sync"
@@ -27,7 +28,7 @@ import (
 )
 
 var st = stat.New("C20",
-	"Trial = {schedule class free | forced | inflight | overflow; 1..8 logging goroutines each logging 1..50 numbered entries through two loggers with separate recording writers; 0..1000 entries of pre-occupancy; process-wide log level DEBUG..ERROR with every entry logged through a call that passes it - levelled calls only, or (a third of the trials) levelled calls at the trial's level, WARN and ERROR mixed with the raw calls WriteLog and Trace that ignore the level; in a quarter of the trials the level is raised to ERROR after the last logging call returned and before the flush is requested; forced: the flusher is parked at the yield hook between its two polls, the last 1..20 entries of one goroutine are logged, the flush is requested (observed through an accessor), the flusher is released; inflight: a writer taking 40 ms per Write, flush requested while the last entry is off the queue but not yet written; overflow: 10001..10300 entries from one goroutine while the writer stalls for 250 ms; late: both writers stall 150 ms on their first entry, 1..3 goroutines log 2..12 entries each, the flush is requested and - once the request is observed - every goroutine logs 1..3 further entries (these need not be written when the flush returns, but must not overtake the goroutine's earlier entries)}. Oracle over the recording writers after FlushLogger returned: every entry whose logging call returned before the flush request is present exactly once on the writer of its logger (and never on the other), entries of one goroutine appear in logging order, every Write call carries exactly one formatted entry (one line, one token), FlushLogger returns only after the flusher acknowledged (or the timeout passed) and within the 1 s flush timeout + slack. Non-trivial = forced trial, overflow trial, or >= 3 goroutines logging. Distinct = distinct trial JSON.",
+	"Trial = {schedule class free | forced | inflight | overflow; 1..8 logging goroutines each logging 1..50 numbered entries through two loggers with separate recording writers; 0..1000 entries of pre-occupancy; process-wide log level DEBUG..ERROR with every entry logged through a call that passes it - levelled calls only, or (a third of the trials) levelled calls at the trial's level, WARN and ERROR mixed with the raw calls WriteLog and Trace that ignore the level; in a quarter of the trials the level is raised to ERROR after the last logging call returned and before the flush is requested; forced: the flusher is parked at the yield hook between its two polls, the last 1..20 entries of one goroutine are logged, the flush is requested (observed through an accessor), the flusher is released; inflight: a writer taking 40 ms per Write, flush requested while the last entry is off the queue but not yet written; overflow: 10001..10300 entries from one goroutine while the writer stalls for 250 ms; late: both writers stall 150 ms on their first entry, 1..3 goroutines log 2..12 entries each, the flush is requested and - once the request is observed - every goroutine logs 1..3 further entries (these need not be written when the flush returns, but must not overtake the goroutine's earlier entries)}. Oracle over the recording writers after FlushLogger returned: every entry whose logging call returned before the flush request is present exactly once on the writer of its logger (and never on the other), entries of one goroutine appear in logging order, every Write call carries exactly one entry (one token; one line, or for a raw entry logged without a terminator no line end at all) and no Write carries anything that was not logged, FlushLogger returns only after the flusher acknowledged (or the timeout passed) and within the 1 s flush timeout + slack. Non-trivial = forced trial, overflow trial, or >= 3 goroutines logging. Distinct = distinct trial JSON.",
 	"the losing interleaving is a window of a few nanoseconds without the hook; the hook (build tag verif, committed to the repository) makes it deterministic, the select between the two ready cases remains random (p = 1/2 per trial)",
 	"logger state is reset between trials through an overlay accessor that restarts the background flusher")
 
@@ -73,7 +74,12 @@ func (t Trial) emit(lg *rogger.Logger, g, i int, tok string) {
 	case 2:
 		lg.Errorf("%s", tok)
 	case 3:
-		lg.WriteLog([]byte(tok + "\n"))
+		// raw entries are handed over as they are, with or without a line terminator
+		if i%2 == 0 {
+			lg.WriteLog([]byte(tok + "\n"))
+		} else {
+			lg.WriteLog([]byte(tok))
+		}
 	case 4:
 		if lg.Writer().NeedPrefix() {
 			lg.Trace(tok)
@@ -184,6 +190,9 @@ func draw(rt *rapid.T) Trial {
 	}
 	return t
 }
+
+// anyToken matches the token of an entry of any trial.
+var anyToken = regexp.MustCompile(`T\d+-G\d+-E\d+#`)
 
 func token(trial int64, g, i int) string { return fmt.Sprintf("T%d-G%d-E%06d#", trial, g, i) }
 
@@ -347,8 +356,11 @@ func run(t Trial) *stat.Failure {
 		lastIdx := map[int]int{}
 		for _, b := range w.snapshot() {
 			s := string(b)
-			if strings.Count(s, "\n") != 1 || !strings.HasSuffix(s, "\n") {
-				return stat.Failf("divided-write", "writer %s received a Write that is not exactly one line: %q", name, clip(s))
+			if !anyToken.MatchString(s) {
+				return stat.Failf("unlogged-write", "writer %s received a Write that carries no logged entry: %q", name, clip(s))
+			}
+			if nl := strings.Count(s, "\n"); nl > 1 || (nl == 1 && !strings.HasSuffix(s, "\n")) {
+				return stat.Failf("divided-write", "writer %s received a Write that is not exactly one entry: %q", name, clip(s))
 			}
 			k := strings.Index(s, fmt.Sprintf("T%d-G", no))
 			if k < 0 {
